@@ -1,1 +1,1278 @@
-fn main() { unimplemented!() }
+//! C15 — the provided methods of `tiny_std::io::{Read, Write}`:
+//! `read_to_end`, `read_to_string`, `read_exact`, `write_all`, `write_fmt`.
+//!
+//! Bounded-exhaustive enumeration (engine E4) of *scripts*: a scripted reader /
+//! writer answers every `read` / `write` call of the real default method from the
+//! next script entry.  All scripts up to a length bound over a small menu are run
+//! against every payload length / initial buffer state of a fixed grid.
+//!
+//! Scripted reader (payload P, cursor pos):
+//!   `D<k>`  deliver min(k, buf.len(), remaining) bytes of P (`DALL`: k = infinity);
+//!           when nothing remains this is `Ok(0)`
+//!   `Z`     `Ok(0)` (even when bytes remain: a reader may report end of data whenever it likes)
+//!   `I`     `Err(Os{EINTR})`
+//!   `F`     `Err(Os{EIO})`
+//!   after the script: deliver everything that remains, then `Ok(0)` for ever.
+//! The reference is plain concatenation: the bytes the reader handed out during the
+//! call, `P[..pos]`.  (For a helper that stops at the first `Ok(0)`/error — as every
+//! sane one does — this is "the bytes delivered before the first `Ok(0)`".)
+//!
+//! Scripted writer: `A<k>` accept min(k, buf.len()) bytes, `I` EINTR, `F` EIO and
+//! `Z` `Ok(0)`; `F` and `Z` are *sticky* (a broken / full sink stays so), therefore a
+//! helper that swallows them never finishes and runs into the call horizon
+//! (`…:livelock`).  After the script the writer accepts everything.
+//!
+//! The print path (`unix/print.rs`, `try_print`) writes through a raw syscall and is
+//! NOT covered here; it needs the syscall seam (S2).
+
+use common::*;
+use serde_json::{json, Value};
+use tiny_std::io::{Read, Write};
+use tiny_std::{Errno, Error};
+
+const ALL: usize = usize::MAX;
+const HORIZON_MSG: &str = "C15-call-horizon-exceeded";
+
+/// menu of delivery sizes of the reader (besides ALL)
+const RMENU: [usize; 5] = [1, 2, 31, 32, 33];
+/// menu of accepted sizes of the writer (besides ALL)
+const WMENU: [usize; 3] = [1, 2, 4];
+
+const OLD: [u8; 5] = [0xE0, 0xE1, 0xE2, 0xE3, 0xE4];
+const OLD_STR: &str = "ab\u{20ac}"; // 5 bytes, ends in a 3-byte character
+const SENTINEL: u8 = 0xAA;
+const UNIT: &str = "a\u{e9}\u{20ac}\u{1f600}"; // 1+2+3+4 bytes
+
+#[derive(Clone, Copy, PartialEq, Eq, Debug)]
+enum Step {
+    /// reader: deliver k bytes; writer: accept k bytes
+    Deliver(usize),
+    /// Ok(0)
+    Zero,
+    Eintr,
+    Fail,
+}
+
+fn rsym(i: usize) -> Step {
+    match i {
+        0..=4 => Step::Deliver(RMENU[i]),
+        5 => Step::Deliver(ALL),
+        6 => Step::Zero,
+        7 => Step::Eintr,
+        _ => Step::Fail,
+    }
+}
+const N_RSYM: usize = 9;
+
+fn wsym(i: usize) -> Step {
+    match i {
+        0..=2 => Step::Deliver(WMENU[i]),
+        3 => Step::Deliver(ALL),
+        4 => Step::Eintr,
+        5 => Step::Zero,
+        _ => Step::Fail,
+    }
+}
+const N_WSYM: usize = 7;
+
+fn script_string(script: &[Step], writer: bool, out: &mut String) {
+    use std::fmt::Write as _;
+    for (i, s) in script.iter().enumerate() {
+        if i > 0 {
+            out.push(' ');
+        }
+        match s {
+            Step::Deliver(ALL) => out.push_str(if writer { "AALL" } else { "DALL" }),
+            Step::Deliver(k) => {
+                let _ = write!(out, "{}{k}", if writer { 'A' } else { 'D' });
+            }
+            Step::Zero => out.push('Z'),
+            Step::Eintr => out.push('I'),
+            Step::Fail => out.push('F'),
+        }
+    }
+}
+
+fn parse_script(s: &str) -> Vec<Step> {
+    s.split_whitespace()
+        .map(|t| match t {
+            "Z" => Step::Zero,
+            "I" => Step::Eintr,
+            "F" => Step::Fail,
+            "DALL" | "AALL" => Step::Deliver(ALL),
+            _ => Step::Deliver(t[1..].parse().expect("script token")),
+        })
+        .collect()
+}
+
+fn eintr() -> Error {
+    Error::Os { msg: "scripted EINTR", code: Errno::EINTR }
+}
+fn eio() -> Error {
+    Error::Os { msg: "scripted EIO", code: Errno::EIO }
+}
+
+#[inline]
+fn mix(h: u64, x: u64) -> u64 {
+    (h ^ x).wrapping_mul(0x100000001b3)
+}
+
+// ---------------------------------------------------------------------------
+// scripted reader
+
+struct SReader<'a> {
+    payload: &'a [u8],
+    pos: usize,
+    script: &'a [Step],
+    cur: usize,
+    menu: &'a [usize],
+    calls: usize,
+    horizon: usize,
+    saw_eof: bool,
+    saw_fail: bool,
+    saw_eintr: bool,
+    /// the script is the canonical representative of the response trace it produced
+    canonical: bool,
+    thash: u64,
+    /// bit p set: a delivery ended at payload offset p with bytes still remaining
+    cuts: u128,
+    trace: Option<Vec<String>>,
+}
+
+impl<'a> SReader<'a> {
+    fn new(payload: &'a [u8], script: &'a [Step], menu: &'a [usize], verbose: bool) -> Self {
+        SReader {
+            payload,
+            pos: 0,
+            script,
+            cur: 0,
+            menu,
+            calls: 0,
+            horizon: script.len() + payload.len() + 64,
+            saw_eof: false,
+            saw_fail: false,
+            saw_eintr: false,
+            canonical: true,
+            thash: 0xcbf29ce484222325,
+            cuts: 0,
+            trace: if verbose { Some(Vec::new()) } else { None },
+        }
+    }
+    fn delivered(&self) -> &'a [u8] {
+        &self.payload[..self.pos]
+    }
+    /// every script entry was consumed and no shorter/other script of the enumeration gives the same responses
+    fn counts_as_distinct(&self) -> bool {
+        self.canonical && self.cur == self.script.len()
+    }
+    fn livelocked(&self) -> bool {
+        self.calls > self.horizon
+    }
+}
+
+impl Read for SReader<'_> {
+    fn read(&mut self, buf: &mut [u8]) -> tiny_std::Result<usize> {
+        self.calls += 1;
+        if self.calls > self.horizon {
+            panic!("{HORIZON_MSG}");
+        }
+        if buf.is_empty() {
+            // not an answer of the script: an empty buffer can only receive 0 bytes
+            if let Some(t) = &mut self.trace {
+                t.push("read(len 0) -> Ok(0) [empty buffer]".into());
+            }
+            return Ok(0);
+        }
+        let remaining = self.payload.len() - self.pos;
+        let avail = remaining.min(buf.len());
+        let (step, scripted) = if self.cur < self.script.len() {
+            self.cur += 1;
+            (self.script[self.cur - 1], true)
+        } else {
+            (Step::Deliver(ALL), false)
+        };
+        let last = scripted && self.cur == self.script.len();
+        let res = match step {
+            Step::Deliver(k) => {
+                let n = k.min(avail);
+                if scripted {
+                    if n == 0 {
+                        self.canonical = false; // `Z` stands for this response
+                    } else if k == ALL {
+                        if self.menu.contains(&n) {
+                            self.canonical = false; // `D<n>` stands for it
+                        }
+                    } else if n != k {
+                        self.canonical = false; // `D<n>` or `DALL` stands for it
+                    }
+                    if last && n == avail {
+                        self.canonical = false; // same as the behaviour after the script
+                    }
+                }
+                buf[..n].copy_from_slice(&self.payload[self.pos..self.pos + n]);
+                self.pos += n;
+                if n == 0 {
+                    self.saw_eof = true;
+                } else if self.pos < self.payload.len() {
+                    self.cuts |= 1u128 << (self.pos & 127);
+                }
+                Ok(n)
+            }
+            Step::Zero => {
+                if last && remaining == 0 {
+                    self.canonical = false;
+                }
+                self.saw_eof = true;
+                Ok(0)
+            }
+            Step::Eintr => {
+                self.saw_eintr = true;
+                Err(eintr())
+            }
+            Step::Fail => {
+                self.saw_fail = true;
+                Err(eio())
+            }
+        };
+        self.thash = mix(
+            self.thash,
+            match &res {
+                Ok(n) => *n as u64 + 3,
+                Err(e) if e.matches_errno(Errno::EINTR) => 1,
+                Err(_) => 2,
+            },
+        );
+        if let Some(t) = &mut self.trace {
+            t.push(format!("read(len {}) -> {:?}{}", buf.len(), res, if scripted { "" } else { " [after script]" }));
+        }
+        res
+    }
+}
+
+// ---------------------------------------------------------------------------
+// scripted writer
+
+struct SWriter<'a> {
+    script: &'a [Step],
+    cur: usize,
+    menu: &'a [usize],
+    accepted: Vec<u8>,
+    calls: usize,
+    horizon: usize,
+    saw_fail: bool,
+    saw_zero: bool,
+    saw_eintr: bool,
+    short: bool,
+    sticky: Option<Step>,
+    canonical: bool,
+    trace: Option<Vec<String>>,
+}
+
+impl<'a> SWriter<'a> {
+    fn new(script: &'a [Step], menu: &'a [usize], expect_len: usize, verbose: bool) -> Self {
+        SWriter {
+            script,
+            cur: 0,
+            menu,
+            accepted: Vec::with_capacity(expect_len + 8),
+            calls: 0,
+            horizon: script.len() + expect_len + 64,
+            saw_fail: false,
+            saw_zero: false,
+            saw_eintr: false,
+            short: false,
+            sticky: None,
+            canonical: true,
+            trace: if verbose { Some(Vec::new()) } else { None },
+        }
+    }
+    fn counts_as_distinct(&self) -> bool {
+        self.canonical && self.cur == self.script.len()
+    }
+    fn livelocked(&self) -> bool {
+        self.calls > self.horizon
+    }
+}
+
+impl Write for SWriter<'_> {
+    fn write(&mut self, buf: &[u8]) -> tiny_std::Result<usize> {
+        self.calls += 1;
+        if self.calls > self.horizon {
+            panic!("{HORIZON_MSG}");
+        }
+        if buf.is_empty() {
+            if let Some(t) = &mut self.trace {
+                t.push("write(len 0) -> Ok(0) [empty buffer]".into());
+            }
+            return Ok(0);
+        }
+        let (step, scripted) = if let Some(s) = self.sticky {
+            (s, false)
+        } else if self.cur < self.script.len() {
+            self.cur += 1;
+            (self.script[self.cur - 1], true)
+        } else {
+            (Step::Deliver(ALL), false)
+        };
+        let last = scripted && self.cur == self.script.len();
+        let res = match step {
+            Step::Deliver(k) => {
+                let n = k.min(buf.len());
+                if scripted {
+                    if k == ALL {
+                        if self.menu.contains(&n) {
+                            self.canonical = false;
+                        }
+                    } else if n != k {
+                        self.canonical = false;
+                    }
+                    if last && n == buf.len() {
+                        self.canonical = false;
+                    }
+                }
+                if n < buf.len() {
+                    self.short = true;
+                }
+                self.accepted.extend_from_slice(&buf[..n]);
+                Ok(n)
+            }
+            Step::Zero => {
+                self.saw_zero = true;
+                self.sticky = Some(Step::Zero);
+                Ok(0)
+            }
+            Step::Eintr => {
+                self.saw_eintr = true;
+                Err(eintr())
+            }
+            Step::Fail => {
+                self.saw_fail = true;
+                self.sticky = Some(Step::Fail);
+                Err(eio())
+            }
+        };
+        if let Some(t) = &mut self.trace {
+            t.push(format!("write(len {}) -> {:?}{}", buf.len(), res, if scripted { "" } else { " [sticky / after script]" }));
+        }
+        res
+    }
+    fn flush(&mut self) -> tiny_std::Result<()> {
+        Ok(())
+    }
+}
+
+// ---------------------------------------------------------------------------
+// case plumbing
+
+/// `{"op":..,..` without the closing brace; `case_string` appends the script.
+fn case_prefix(v: Value) -> String {
+    let mut s = v.to_string();
+    s.pop();
+    s.push_str(",\"script\":\"");
+    s
+}
+
+fn case_string(out: &mut String, prefix: &str, script: &[Step], writer: bool) {
+    out.clear();
+    out.push_str(prefix);
+    script_string(script, writer, out);
+    out.push_str("\"}");
+}
+
+fn case_json(case: &str) -> Value {
+    serde_json::from_str(case).unwrap_or_else(|_| Value::String(case.to_string()))
+}
+
+fn viol(r: &mut Report, op: &str, kind: &str, desc: String, case: &str) {
+    r.violation(&format!("C15:{op}:{kind}"), desc, case_json(case));
+}
+
+fn print_trace(t: &Option<Vec<String>>) {
+    if let Some(t) = t {
+        for l in t {
+            println!("    {l}");
+        }
+    }
+}
+
+fn rd_summary(rd: &SReader) -> String {
+    format!(
+        "reader handed out {} of {} payload bytes in {} calls (saw Ok(0): {}, EINTR: {}, EIO: {})",
+        rd.pos,
+        rd.payload.len(),
+        rd.calls,
+        rd.saw_eof,
+        rd.saw_eintr,
+        rd.saw_fail
+    )
+}
+
+// ---------------------------------------------------------------------------
+// read_to_end
+
+fn run_rte(r: &mut Report, case: &str, payload: &[u8], script: &[Step], len0: usize, cap0: usize, verbose: bool) {
+    const OP: &str = "read_to_end";
+    r.eval();
+    let mut v: Vec<u8> = Vec::with_capacity(cap0);
+    v.extend_from_slice(&OLD[..len0]);
+    if v.capacity() != cap0 {
+        r.outcome("setup:capacity-differs-from-request");
+    }
+    let cap_before = v.capacity();
+    let mut rd = SReader::new(payload, script, &RMENU, verbose);
+    let res = catch(|| rd.read_to_end(&mut v));
+    if rd.counts_as_distinct() {
+        r.nontrivial_unique();
+    }
+    if verbose {
+        print_trace(&rd.trace);
+        println!("  result: {res:?}; vec len {} cap {}; {}", v.len(), v.capacity(), rd_summary(&rd));
+    }
+    let want = rd.delivered();
+    match res {
+        Err(p) => {
+            if rd.livelocked() {
+                r.outcome("read_to_end:livelock");
+                viol(r, OP, "livelock", format!("more than {} read calls; {}", rd.horizon, rd_summary(&rd)), case);
+            } else {
+                r.outcome("read_to_end:panic");
+                viol(r, OP, "panic", format!("panicked: {p}; {}", rd_summary(&rd)), case);
+            }
+        }
+        Ok(Ok(n)) => {
+            if rd.saw_fail {
+                r.outcome("read_to_end:error-swallowed");
+                viol(r, OP, "error-swallowed", format!("returned Ok({n}) although the reader returned EIO; {}", rd_summary(&rd)), case);
+                return;
+            }
+            if !rd.saw_eof {
+                r.outcome("read_to_end:premature-return");
+                viol(r, OP, "premature-return", format!("returned Ok({n}) without ever seeing Ok(0); {}", rd_summary(&rd)), case);
+                return;
+            }
+            r.outcome(match (rd.saw_eintr, rd.pos < payload.len()) {
+                (false, false) => "read_to_end:ok",
+                (true, false) => "read_to_end:ok-after-eintr",
+                (false, true) => "read_to_end:ok-early-eof",
+                (true, true) => "read_to_end:ok-early-eof-after-eintr",
+            });
+            r.outcome(if v.capacity() == cap_before { "read_to_end:capacity-kept" } else { "read_to_end:capacity-grew" });
+            if v.len() < len0 || v[..len0] != OLD[..len0] {
+                viol(r, OP, "existing-content-clobbered", format!("first {len0} bytes are now {}", show_bytes(&v[..len0.min(v.len())])), case);
+            } else if &v[len0..] != want {
+                viol(
+                    r,
+                    OP,
+                    "wrong-bytes",
+                    format!("appended {} bytes {}, reader delivered {} bytes {}", v.len() - len0, show_bytes(&v[len0..]), want.len(), show_bytes(want)),
+                    case,
+                );
+            }
+            if n != want.len() {
+                viol(r, OP, "wrong-count", format!("returned Ok({n}), reader delivered {} bytes (vec grew by {})", want.len(), v.len() as isize - len0 as isize), case);
+            }
+        }
+        Ok(Err(e)) => {
+            if rd.saw_fail {
+                if e.matches_errno(Errno::EIO) {
+                    r.outcome("read_to_end:error-surfaced");
+                } else {
+                    r.outcome("read_to_end:wrong-error");
+                    viol(r, OP, "wrong-error", format!("reader failed with EIO, helper returned {e:?}"), case);
+                }
+            } else if e.matches_errno(Errno::EINTR) {
+                r.outcome("read_to_end:eintr-surfaced");
+                viol(r, OP, "eintr-surfaced", format!("returned {e:?} instead of retrying; {}", rd_summary(&rd)), case);
+            } else {
+                r.outcome("read_to_end:spurious-error");
+                viol(r, OP, "spurious-error", format!("returned {e:?} although the reader reported no error; {}", rd_summary(&rd)), case);
+            }
+        }
+    }
+}
+
+// ---------------------------------------------------------------------------
+// read_to_string
+
+/// `ident` identifies (payload, initial state) for the distinct-case hash.
+#[allow(clippy::too_many_arguments)]
+fn run_rts(r: &mut Report, case: &str, payload: &[u8], script: &[Step], menu: &[usize], old: &str, spare: usize, ident: u64, verbose: bool) -> u128 {
+    const OP: &str = "read_to_string";
+    r.eval();
+    let mut s = String::with_capacity(old.len() + spare);
+    s.push_str(old);
+    let mut rd = SReader::new(payload, script, menu, verbose);
+    let res = catch(|| rd.read_to_string(&mut s));
+    // several sub-enumerations of read_to_string overlap: distinct cases are counted by response trace
+    r.nontrivial(&(ident, rd.thash, rd.calls));
+    // look at the raw bytes first: a String holding invalid UTF-8 must not be touched through str APIs
+    let raw: Vec<u8> = s.as_bytes().to_vec();
+    if verbose {
+        print_trace(&rd.trace);
+        println!("  result: {res:?}; string bytes now {}; {}", show_bytes(&raw), rd_summary(&rd));
+    }
+    let delivered = rd.delivered();
+    let delivered_utf8 = std::str::from_utf8(delivered).is_ok();
+    let unchanged = raw == old.as_bytes();
+    if std::str::from_utf8(&raw).is_err() {
+        viol(r, OP, "string-holds-invalid-utf8", format!("String bytes after the call: {} (result {res:?})", show_bytes(&raw)), case);
+        std::mem::forget(s);
+        r.outcome("read_to_string:string-corrupted");
+        return rd.cuts;
+    }
+    match res {
+        Err(p) => {
+            if rd.livelocked() {
+                r.outcome("read_to_string:livelock");
+                viol(r, OP, "livelock", format!("more than {} read calls; {}", rd.horizon, rd_summary(&rd)), case);
+            } else {
+                r.outcome("read_to_string:panic");
+                viol(r, OP, "panic", format!("panicked: {p}; {}", rd_summary(&rd)), case);
+            }
+        }
+        Ok(Ok(n)) => {
+            if rd.saw_fail {
+                r.outcome("read_to_string:error-swallowed");
+                viol(r, OP, "error-swallowed", format!("returned Ok({n}) although the reader returned EIO; {}", rd_summary(&rd)), case);
+                return rd.cuts;
+            }
+            if !rd.saw_eof {
+                r.outcome("read_to_string:premature-return");
+                viol(r, OP, "premature-return", format!("returned Ok({n}) without ever seeing Ok(0); {}", rd_summary(&rd)), case);
+                return rd.cuts;
+            }
+            if !delivered_utf8 {
+                r.outcome("read_to_string:accepted-invalid-utf8");
+                viol(r, OP, "accepted-invalid-utf8", format!("returned Ok({n}) for delivered bytes {}", show_bytes(delivered)), case);
+                return rd.cuts;
+            }
+            r.outcome(match (rd.saw_eintr, rd.pos < payload.len()) {
+                (false, false) => "read_to_string:ok",
+                (true, false) => "read_to_string:ok-after-eintr",
+                (false, true) => "read_to_string:ok-early-eof",
+                (true, true) => "read_to_string:ok-early-eof-after-eintr",
+            });
+            let mut want = old.as_bytes().to_vec();
+            want.extend_from_slice(delivered);
+            if raw != want {
+                viol(r, OP, "wrong-bytes", format!("string is {}, expected old + delivered = {}", show_bytes(&raw), show_bytes(&want)), case);
+            }
+            if n != delivered.len() {
+                viol(r, OP, "wrong-count", format!("returned Ok({n}), reader delivered {} bytes", delivered.len()), case);
+            }
+        }
+        Ok(Err(e)) => {
+            if !delivered_utf8 {
+                // the data is not UTF-8: an error is due (whichever, if the reader failed too) and the string stays
+                r.outcome(if rd.saw_fail { "read_to_string:invalid-utf8-and-io-error" } else { "read_to_string:invalid-utf8" });
+                if !unchanged {
+                    viol(
+                        r,
+                        OP,
+                        "string-modified-on-invalid-utf8",
+                        format!("delivered bytes {} are not UTF-8, result {e:?}, string changed from {:?} to bytes {}", show_bytes(delivered), old, show_bytes(&raw)),
+                        case,
+                    );
+                }
+            } else if rd.saw_fail {
+                if e.matches_errno(Errno::EIO) {
+                    r.outcome("read_to_string:error-surfaced");
+                } else {
+                    r.outcome("read_to_string:wrong-error");
+                    viol(r, OP, "wrong-error", format!("reader failed with EIO, helper returned {e:?}"), case);
+                }
+            } else if e.matches_errno(Errno::EINTR) {
+                r.outcome("read_to_string:eintr-surfaced");
+                viol(r, OP, "eintr-surfaced", format!("returned {e:?} instead of retrying; {}", rd_summary(&rd)), case);
+            } else {
+                r.outcome("read_to_string:spurious-error");
+                viol(r, OP, "spurious-error", format!("returned {e:?}; delivered bytes {} are UTF-8 and the reader reported no error", show_bytes(delivered)), case);
+            }
+        }
+    }
+    rd.cuts
+}
+
+// ---------------------------------------------------------------------------
+// read_exact
+
+fn run_rex(r: &mut Report, case: &str, payload: &[u8], script: &[Step], bufsize: usize, verbose: bool) {
+    const OP: &str = "read_exact";
+    r.eval();
+    let mut b = vec![SENTINEL; bufsize];
+    let mut rd = SReader::new(payload, script, &RMENU, verbose);
+    let res = catch(|| rd.read_exact(&mut b));
+    if rd.counts_as_distinct() {
+        r.nontrivial_unique();
+    }
+    if verbose {
+        print_trace(&rd.trace);
+        println!("  result: {res:?}; buffer {}; {}", show_bytes(&b), rd_summary(&rd));
+    }
+    match res {
+        Err(p) => {
+            if rd.livelocked() {
+                r.outcome("read_exact:livelock");
+                viol(r, OP, "livelock", format!("more than {} read calls; {}", rd.horizon, rd_summary(&rd)), case);
+            } else {
+                r.outcome("read_exact:panic");
+                viol(r, OP, "panic", format!("panicked: {p}; {}", rd_summary(&rd)), case);
+            }
+        }
+        Ok(Ok(())) => {
+            if rd.saw_fail {
+                r.outcome("read_exact:error-swallowed");
+                viol(r, OP, "error-swallowed", format!("returned Ok although the reader returned EIO; {}", rd_summary(&rd)), case);
+            } else if rd.pos < bufsize {
+                r.outcome("read_exact:ok-on-short-read");
+                viol(r, OP, "ok-on-short-read", format!("returned Ok for a {bufsize}-byte buffer; {}", rd_summary(&rd)), case);
+            } else if rd.pos > bufsize {
+                r.outcome("read_exact:over-consumed");
+                viol(r, OP, "over-consumed", format!("took {} bytes from the reader for a {bufsize}-byte buffer", rd.pos), case);
+            } else {
+                r.outcome(match (bufsize == 0, rd.saw_eintr) {
+                    (true, _) => "read_exact:ok-empty-buffer",
+                    (false, false) => "read_exact:ok",
+                    (false, true) => "read_exact:ok-after-eintr",
+                });
+                if b[..] != payload[..bufsize] {
+                    viol(r, OP, "wrong-bytes", format!("buffer {} but the first {bufsize} delivered bytes are {}", show_bytes(&b), show_bytes(&payload[..bufsize])), case);
+                }
+            }
+        }
+        Ok(Err(e)) => {
+            if rd.saw_fail {
+                if e.matches_errno(Errno::EIO) {
+                    r.outcome("read_exact:error-surfaced");
+                } else {
+                    r.outcome("read_exact:wrong-error");
+                    viol(r, OP, "wrong-error", format!("reader failed with EIO, helper returned {e:?}"), case);
+                }
+            } else if e.matches_errno(Errno::EINTR) {
+                r.outcome("read_exact:eintr-surfaced");
+                viol(r, OP, "eintr-surfaced", format!("returned {e:?} instead of retrying; {}", rd_summary(&rd)), case);
+            } else if rd.saw_eof && rd.pos < bufsize {
+                r.outcome("read_exact:eof-short");
+            } else {
+                r.outcome("read_exact:spurious-error");
+                viol(r, OP, "spurious-error", format!("returned {e:?} for a {bufsize}-byte buffer; {}", rd_summary(&rd)), case);
+            }
+        }
+    }
+}
+
+// ---------------------------------------------------------------------------
+// write_all / write_fmt
+
+struct FmtCase {
+    name: &'static str,
+    expect: String,
+    run: for<'a, 'b> fn(&'a mut SWriter<'b>) -> tiny_std::Result<()>,
+}
+
+macro_rules! fmt_case {
+    ($($t:tt)*) => {{
+        fn run(w: &mut SWriter<'_>) -> tiny_std::Result<()> {
+            w.write_fmt(format_args!($($t)*))
+        }
+        FmtCase { name: stringify!($($t)*), expect: format!($($t)*), run }
+    }};
+}
+
+/// keeps the compiler from folding literal arguments into the format string (which would leave one fragment)
+fn bb<T>(t: T) -> T {
+    std::hint::black_box(t)
+}
+
+fn fmt_cases() -> Vec<FmtCase> {
+    vec![
+        fmt_case!(""),
+        fmt_case!("abc"),
+        fmt_case!("{}", bb("x")),
+        fmt_case!("{}-{}{}", bb(""), bb(0u32), bb("")),
+        fmt_case!("{}-{}{}", bb("h\u{e9}llo"), bb(12345u32), bb("yz")),
+        fmt_case!("{}{}{}{}{}{}", bb('a'), bb('b'), bb('c'), bb('d'), bb('e'), bb('f')),
+        fmt_case!("{:>4}|{:<3}|{:^5}", bb("\u{e9}"), bb(7u8), bb("ab")),
+        fmt_case!("{:?} {:#x}", bb("a\"b\n"), bb(255u32)),
+        fmt_case!("{}{}", bb("0123456789abcdef0123456789abcdef"), bb("!")),
+    ]
+}
+
+/// `call` runs the helper on the writer; `payload` is what must arrive.
+fn run_write(r: &mut Report, op: &'static str, case: &str, payload: &[u8], script: &[Step], call: &dyn Fn(&mut SWriter<'_>) -> tiny_std::Result<()>, verbose: bool) {
+    r.eval();
+    let mut w = SWriter::new(script, &WMENU, payload.len(), verbose);
+    let res = catch(|| call(&mut w));
+    if w.counts_as_distinct() {
+        r.nontrivial_unique();
+    }
+    if verbose {
+        print_trace(&w.trace);
+        println!("  result: {res:?}; writer accepted {} of {} bytes: {}", w.accepted.len(), payload.len(), show_bytes(&w.accepted));
+    }
+    let oc = |s: &str| format!("{op}:{s}");
+    let is_prefix = w.accepted.len() <= payload.len() && w.accepted[..] == payload[..w.accepted.len()];
+    if !is_prefix {
+        viol(
+            r,
+            op,
+            "duplicated-or-lost-bytes",
+            format!("writer received {} which is not a prefix of {} (result {res:?})", show_bytes(&w.accepted), show_bytes(payload)),
+            case,
+        );
+    }
+    match res {
+        Err(p) => {
+            if w.livelocked() {
+                r.outcome(&oc("livelock"));
+                viol(
+                    r,
+                    op,
+                    "livelock",
+                    format!("more than {} write calls (writer stuck on {:?}); accepted {} of {} bytes", w.horizon, w.sticky, w.accepted.len(), payload.len()),
+                    case,
+                );
+            } else {
+                r.outcome(&oc("panic"));
+                viol(r, op, "panic", format!("panicked: {p}"), case);
+            }
+        }
+        Ok(Ok(())) => {
+            if w.accepted.len() < payload.len() {
+                r.outcome(&oc("ok-but-incomplete"));
+                if is_prefix {
+                    viol(r, op, "ok-but-incomplete", format!("returned Ok, writer received only {} of {} bytes", w.accepted.len(), payload.len()), case);
+                }
+            } else {
+                r.outcome(&oc(match (payload.is_empty(), w.saw_eintr, w.short) {
+                    (true, _, _) => "ok-nothing-to-write",
+                    (false, false, false) => "ok",
+                    (false, false, true) => "ok-after-short-writes",
+                    (false, true, false) => "ok-after-eintr",
+                    (false, true, true) => "ok-after-eintr-and-short-writes",
+                }));
+            }
+        }
+        Ok(Err(e)) => {
+            // the writer's own error; EINTR may be retried or returned (the statement leaves it open)
+            if e.matches_errno(Errno::EIO) && w.saw_fail {
+                r.outcome(&oc("error-surfaced"));
+            } else if e.matches_errno(Errno::EINTR) && w.saw_eintr {
+                r.outcome(&oc("eintr-returned"));
+            } else if !matches!(e, Error::Os { .. }) && w.saw_zero {
+                r.outcome(&oc("write-zero-error"));
+            } else if w.saw_fail {
+                r.outcome(&oc("wrong-error"));
+                viol(r, op, "wrong-error", format!("writer failed with EIO, helper returned {e:?}"), case);
+            } else {
+                r.outcome(&oc("spurious-error"));
+                viol(
+                    r,
+                    op,
+                    "spurious-error",
+                    format!("returned {e:?}; writer saw EIO: {}, Ok(0): {}, EINTR: {}; accepted {} of {}", w.saw_fail, w.saw_zero, w.saw_eintr, w.accepted.len(), payload.len()),
+                    case,
+                );
+            }
+        }
+    }
+}
+
+// ---------------------------------------------------------------------------
+// the enumeration
+
+fn mk_payload(n: usize) -> Vec<u8> {
+    (0..n).map(|i| 1 + (i % 150) as u8).collect()
+}
+
+fn dedup_sorted(mut v: Vec<usize>) -> Vec<usize> {
+    v.sort_unstable();
+    v.dedup();
+    v
+}
+
+/// (len0, cap0) of the vector handed to read_to_end
+fn rte_states(plen: usize) -> Vec<(usize, usize)> {
+    let spares = dedup_sorted(vec![0, 1, plen.saturating_sub(1), plen, plen + 1, 31, 32, 33, 95]);
+    let mut v = Vec::new();
+    for len0 in [0usize, 5] {
+        for &s in &spares {
+            v.push((len0, len0 + s));
+        }
+    }
+    v
+}
+
+/// (old, spare capacity) of the String handed to read_to_string
+fn rts_states(plen: usize) -> Vec<(&'static str, usize)> {
+    let spares = dedup_sorted(vec![0, plen, 100]);
+    let mut v = Vec::new();
+    for old in ["", OLD_STR] {
+        for &s in &spares {
+            v.push((old, s));
+        }
+    }
+    v
+}
+
+fn texts() -> Vec<String> {
+    vec![
+        String::new(),
+        "\u{e9}".into(),
+        UNIT.into(),
+        format!("{}a", UNIT.repeat(3)),        // 31
+        format!("{}\u{e9}", UNIT.repeat(3)),   // 32
+        format!("{}\u{20ac}", UNIT.repeat(3)), // 33
+        UNIT.repeat(4),                        // 40: byte 32 is inside a character
+        UNIT.repeat(7),                        // 70: byte 64 is inside a character
+    ]
+}
+
+/// every way of cutting `n` bytes into consecutive pieces using at most `max_cuts` cuts,
+/// as scripts of `Deliver(piece)` (the last piece is left to the reader's default), each
+/// optionally with an EINTR between the pieces
+fn cut_scripts(n: usize, max_cuts: usize, with_eintr: bool) -> Vec<Vec<Step>> {
+    fn rec(n: usize, start: usize, left: usize, cur: &mut Vec<usize>, out: &mut Vec<Vec<usize>>) {
+        out.push(cur.clone());
+        if left == 0 {
+            return;
+        }
+        for c in start..n {
+            cur.push(c);
+            rec(n, c + 1, left - 1, cur, out);
+            cur.pop();
+        }
+    }
+    let mut sets = Vec::new();
+    rec(n, 1, max_cuts, &mut Vec::new(), &mut sets);
+    sets.sort_by_key(|s| s.len());
+    let mut out = Vec::new();
+    for cuts in sets {
+        let mut plain = Vec::new();
+        let mut inter = Vec::new();
+        let mut prev = 0;
+        for &c in &cuts {
+            plain.push(Step::Deliver(c - prev));
+            inter.push(Step::Deliver(c - prev));
+            inter.push(Step::Eintr);
+            prev = c;
+        }
+        out.push(plain);
+        if with_eintr && !cuts.is_empty() {
+            out.push(inter);
+        }
+    }
+    out
+}
+
+fn menu_scripts(max_len: usize) -> Vec<Vec<Step>> {
+    let mut v = Vec::new();
+    for_each_seq(N_RSYM, max_len, |idx| v.push(idx.iter().map(|&i| rsym(i)).collect()));
+    v
+}
+
+struct Bounds {
+    l_read: usize,
+    l_rts: usize,
+    l_rts_invalid: usize,
+    l_write: usize,
+    cuts_long: usize,
+}
+
+const RTE_LENS: [usize; 8] = [0, 1, 31, 32, 33, 64, 65, 100];
+const REX_LENS: [usize; 6] = [0, 1, 2, 5, 33, 40];
+const WA_LENS: [usize; 5] = [0, 1, 2, 5, 33];
+
+fn c15(args: &Args) -> Report {
+    let b = if args.thorough {
+        Bounds { l_read: 7, l_rts: 5, l_rts_invalid: 3, l_write: 9, cuts_long: 3 }
+    } else {
+        Bounds { l_read: 6, l_rts: 4, l_rts_invalid: 2, l_write: 7, cuts_long: 2 }
+    };
+    let mut items: Vec<Isolated> = Vec::new();
+
+    // ---- read_to_end: all menu scripts x payload lengths x initial (len, cap)
+    for &plen in &RTE_LENS {
+        for (si, (len0, cap0)) in rte_states(plen).into_iter().enumerate() {
+            let l = b.l_read;
+            items.push(isolated(format!("read_to_end-p{plen}-l{len0}-c{cap0}"), move || {
+                let payload = mk_payload(plen);
+                let mut r = Report::new();
+                let prefix = case_prefix(json!({"op":"read_to_end","payload":show_bytes(&payload),"len0":len0,"cap0":cap0}));
+                let mut cs = String::new();
+                let mut steps: Vec<Step> = Vec::new();
+                let mut k = 0u64;
+                for_each_seq(N_RSYM, l, |idx| {
+                    steps.clear();
+                    steps.extend(idx.iter().map(|&i| rsym(i)));
+                    case_string(&mut cs, &prefix, &steps, false);
+                    set_case(&cs);
+                    run_rte(&mut r, &cs, &payload, &steps, len0, cap0, false);
+                    clear_case();
+                    k += 1;
+                    if plen == 33 && si == 3 && k == 4321 {
+                        r.sample(case_json(&cs));
+                    }
+                });
+                r
+            }));
+        }
+    }
+
+    // ---- read_exact: all menu scripts x payload lengths x every buffer size 0..=payload+2
+    for &plen in &REX_LENS {
+        for bufsize in 0..=plen + 2 {
+            let l = b.l_read;
+            items.push(isolated(format!("read_exact-p{plen}-b{bufsize}"), move || {
+                let payload = mk_payload(plen);
+                let mut r = Report::new();
+                let prefix = case_prefix(json!({"op":"read_exact","payload":show_bytes(&payload),"bufsize":bufsize}));
+                let mut cs = String::new();
+                let mut steps: Vec<Step> = Vec::new();
+                let mut k = 0u64;
+                for_each_seq(N_RSYM, l, |idx| {
+                    steps.clear();
+                    steps.extend(idx.iter().map(|&i| rsym(i)));
+                    case_string(&mut cs, &prefix, &steps, false);
+                    set_case(&cs);
+                    run_rex(&mut r, &cs, &payload, &steps, bufsize, false);
+                    clear_case();
+                    k += 1;
+                    if plen == 5 && bufsize == 4 && k == 777 {
+                        r.sample(case_json(&cs));
+                    }
+                });
+                r
+            }));
+        }
+    }
+
+    // ---- read_to_string
+    // (a) menu scripts over multi-byte texts whose characters straddle the 32/64-byte thresholds
+    for (ti, text) in texts().into_iter().enumerate() {
+        for (si, (old, spare)) in rts_states(text.len()).into_iter().enumerate() {
+            let l = b.l_rts;
+            let text = text.clone();
+            items.push(isolated(format!("read_to_string-menu-t{ti}-s{si}"), move || {
+                let payload = text.as_bytes();
+                let mut r = Report::new();
+                let prefix = case_prefix(json!({"op":"read_to_string","payload":show_bytes(payload),"old":old,"spare":spare}));
+                let ident = hash_of(&(payload, old, spare));
+                let mut cs = String::new();
+                let mut steps: Vec<Step> = Vec::new();
+                let mut k = 0u64;
+                for_each_seq(N_RSYM, l, |idx| {
+                    steps.clear();
+                    steps.extend(idx.iter().map(|&i| rsym(i)));
+                    case_string(&mut cs, &prefix, &steps, false);
+                    set_case(&cs);
+                    run_rts(&mut r, &cs, payload, &steps, &RMENU, old, spare, ident, false);
+                    clear_case();
+                    k += 1;
+                    if ti == 6 && si == 3 && k == 3000 {
+                        r.sample(case_json(&cs));
+                    }
+                });
+                r
+            }));
+        }
+    }
+    // (b) deliveries cut at every byte boundary: the 10-byte unit in every composition, the 40-byte text with
+    //     every set of <= cuts_long cuts, each with and without EINTR between the pieces
+    for (name, text, max_cuts) in [("unit", UNIT.to_string(), 9usize), ("unit-x4", UNIT.repeat(4), b.cuts_long)] {
+        for (si, (old, spare)) in rts_states(text.len()).into_iter().enumerate() {
+            let text = text.clone();
+            items.push(isolated(format!("read_to_string-cuts-{name}-s{si}"), move || {
+                let payload = text.as_bytes();
+                let mut r = Report::new();
+                let prefix = case_prefix(json!({"op":"read_to_string","payload":show_bytes(payload),"old":old,"spare":spare}));
+                let ident = hash_of(&(payload, old, spare));
+                let mut cs = String::new();
+                let mut mask = 0u128;
+                let all_sizes: Vec<usize> = (1..=payload.len()).collect();
+                for (k, steps) in cut_scripts(payload.len(), max_cuts, true).iter().enumerate() {
+                    case_string(&mut cs, &prefix, steps, false);
+                    set_case(&cs);
+                    mask |= run_rts(&mut r, &cs, payload, steps, &all_sizes, old, spare, ident, false);
+                    clear_case();
+                    if name == "unit" && si == 5 && k == 200 {
+                        r.sample(case_json(&cs));
+                    }
+                }
+                r.note(format!("cutmask:{name}:{}:{mask:x}", payload.len()));
+                r
+            }));
+        }
+    }
+    // (c) one invalid byte (0xFF) at every position; (d) the text truncated at every byte
+    for (name, text) in [("unit", UNIT.to_string()), ("33", format!("{}\u{20ac}", UNIT.repeat(3))), ("unit-x4", UNIT.repeat(4))] {
+        let n = text.len();
+        for variant in ["ff", "trunc"] {
+            for pos in 0..n {
+                let l = b.l_rts_invalid;
+                let text = text.clone();
+                items.push(isolated(format!("read_to_string-{variant}-{name}-at{pos}"), move || {
+                    let mut payload = text.as_bytes().to_vec();
+                    if variant == "ff" {
+                        payload[pos] = 0xFF;
+                    } else {
+                        payload.truncate(pos);
+                    }
+                    let mut r = Report::new();
+                    let mut scripts = cut_scripts(payload.len(), 1, false);
+                    scripts.extend(menu_scripts(l).into_iter().filter(|s| !s.is_empty()));
+                    let all_sizes: Vec<usize> = (1..=payload.len()).chain(RMENU).collect();
+                    let mut cs = String::new();
+                    for (si, (old, spare)) in rts_states(payload.len()).into_iter().enumerate() {
+                        let prefix = case_prefix(json!({"op":"read_to_string","payload":show_bytes(&payload),"old":old,"spare":spare}));
+                        let ident = hash_of(&(&payload, old, spare));
+                        for (k, steps) in scripts.iter().enumerate() {
+                            case_string(&mut cs, &prefix, steps, false);
+                            set_case(&cs);
+                            run_rts(&mut r, &cs, &payload, steps, &all_sizes, old, spare, ident, false);
+                            clear_case();
+                            if name == "unit" && pos == 4 && si == 1 && k == 3 {
+                                r.sample(case_json(&cs));
+                            }
+                        }
+                    }
+                    r
+                }));
+            }
+        }
+    }
+
+    // ---- write_all / write_fmt: all writer scripts (sticky entries only in last position)
+    let wa: Vec<(String, Vec<u8>, Option<usize>)> = WA_LENS
+        .iter()
+        .map(|&n| (format!("write_all-p{n}"), mk_payload(n), None))
+        .chain(fmt_cases().into_iter().enumerate().map(|(i, f)| (format!("write_fmt-{i}"), f.expect.into_bytes(), Some(i))))
+        .collect();
+    for (name, payload, fmt) in wa {
+        // shards: all scripts shorter than the bound first (so that the simplest failing case is the one kept),
+        // then the scripts of full length split by their first symbol
+        for first in std::iter::once(N_WSYM).chain(0..N_WSYM) {
+            let l = b.l_write;
+            let payload = payload.clone();
+            items.push(isolated(format!("{name}-f{first}"), move || {
+                let mut r = Report::new();
+                let cases = fmt_cases();
+                let (op, prefix) = match fmt {
+                    None => ("write_all", case_prefix(json!({"op":"write_all","payload":show_bytes(&payload)}))),
+                    Some(i) => ("write_fmt", case_prefix(json!({"op":"write_fmt","fmt":cases[i].name,"payload":show_bytes(&payload)}))),
+                };
+                let call: Box<dyn Fn(&mut SWriter<'_>) -> tiny_std::Result<()>> = match fmt {
+                    None => {
+                        let p = payload.clone();
+                        Box::new(move |w| w.write_all(&p))
+                    }
+                    Some(i) => {
+                        let f = cases[i].run;
+                        Box::new(move |w| f(w))
+                    }
+                };
+                let mut cs = String::new();
+                let mut steps: Vec<Step> = Vec::new();
+                let mut k = 0u64;
+                for_each_seq(N_WSYM, l, |idx| {
+                    // `first == N_WSYM` is the shard of the scripts shorter than `l`
+                    if (first == N_WSYM) != (idx.len() < l) || (idx.len() == l && idx[0] != first) {
+                        return;
+                    }
+                    steps.clear();
+                    steps.extend(idx.iter().map(|&i| wsym(i)));
+                    // entries behind a sticky Ok(0)/EIO can never be reached: not cases of their own
+                    if steps[..steps.len().saturating_sub(1)].iter().any(|s| matches!(s, Step::Zero | Step::Fail)) {
+                        return;
+                    }
+                    case_string(&mut cs, &prefix, &steps, true);
+                    set_case(&cs);
+                    run_write(&mut r, op, &cs, &payload, &steps, &*call, false);
+                    clear_case();
+                    k += 1;
+                    if first == N_WSYM && k == 500 && (fmt == Some(4) || (fmt.is_none() && payload.len() == 5)) {
+                        r.sample(case_json(&cs));
+                    }
+                });
+                r
+            }));
+        }
+    }
+
+    let n_items = items.len();
+    let mut r = run_isolated(items, &args.out, "C15");
+
+    // fold the cut-coverage notes of the shards into one statement
+    let mut cover: std::collections::BTreeMap<String, (usize, u128)> = Default::default();
+    r.notes.retain(|n| {
+        let Some(rest) = n.strip_prefix("cutmask:") else { return true };
+        let p: Vec<&str> = rest.split(':').collect();
+        let e = cover.entry(p[0].to_string()).or_insert((p[1].parse().unwrap_or(0), 0));
+        e.1 |= u128::from_str_radix(p[2], 16).unwrap_or(0);
+        false
+    });
+    for (name, (n, mask)) in cover {
+        let hit = (1..n).filter(|&p| mask >> p & 1 == 1).count();
+        r.bound(&format!("utf8_text_{name}_delivery_boundaries_hit"), format!("{hit} of {}", n - 1));
+        if hit != n - 1 {
+            r.cap(format!("read_to_string cut enumeration on text {name}: only {hit} of {} byte boundaries were hit by a delivery", n - 1));
+        }
+    }
+
+    // number of fragments (= write calls of an all-accepting writer) of each format case
+    let frags: Vec<usize> = fmt_cases()
+        .iter()
+        .map(|f| {
+            let mut w = SWriter::new(&[], &WMENU, f.expect.len(), false);
+            let _ = (f.run)(&mut w);
+            w.calls
+        })
+        .collect();
+    r.bound("write_fmt_fragments_per_format", frags.clone());
+    r.rule = format!(
+        "Real default methods of tiny_std::io::Read/Write driven by a scripted reader/writer. \
+         read_to_end: every script of length <= {lr} over {{D1,D2,D31,D32,D33,DALL,Ok(0),EINTR,EIO}} x payload lengths {RTE_LENS:?} x initial vectors len in {{0,5}}, \
+         spare capacity in {{0,1,n-1,n,n+1,31,32,33,95}} (n = payload length; contains (0,0),(0,exact),(5,5),(5,5+exact),(5,100)). \
+         read_exact: the same scripts x payload lengths {REX_LENS:?} x every buffer size 0..=n+2. \
+         read_to_string: scripts of length <= {ls} x 8 multi-byte texts (0..70 bytes, characters straddling bytes 32 and 64) x old in {{\"\",\"ab\u{20ac}\"}} x spare capacity {{0,exact,100}}; \
+         the 10-byte text 'a\u{e9}\u{20ac}\u{1f600}' delivered in every composition into pieces and its 40-byte repetition with every set of <= {cl} cuts, with and without EINTR between pieces; \
+         0xFF substituted at every position and truncation at every byte of the 10/33/40-byte texts x (every single cut + scripts of length <= {li}). \
+         write_all (payload lengths {WA_LENS:?}) and write_fmt ({nf} format strings producing 0..{mf} separate write_all fragments, arguments opaque to the compiler): every script of length <= {lw} over {{A1,A2,A4,AALL,EINTR,Ok(0)*,EIO*}} (* sticky, last position only). \
+         After its script a reader delivers the rest then Ok(0); a writer accepts everything. Reference: plain concatenation of what the reader handed out / what was to be written. \
+         A case counts as distinct when the helper consumed the whole script and no other script of the enumeration yields the same response sequence \
+         (a delivery clipped by the buffer, an entry equal to the after-script behaviour, or unreached entries make a script a duplicate of another one); \
+         read_to_string cases are counted by (payload, initial string, response sequence).",
+        lr = b.l_read,
+        ls = b.l_rts,
+        cl = b.cuts_long,
+        li = b.l_rts_invalid,
+        lw = b.l_write,
+        nf = fmt_cases().len(),
+        mf = frags.iter().max().copied().unwrap_or(0),
+    );
+    r.bound("max_script_len_read", b.l_read);
+    r.bound("max_script_len_read_to_string", b.l_rts);
+    r.bound("max_script_len_write", b.l_write);
+    r.bound("reader_menu", "D1 D2 D31 D32 D33 DALL Z(Ok(0)) I(EINTR) F(EIO)");
+    r.bound("writer_menu", "A1 A2 A4 AALL I(EINTR) Z(Ok(0), sticky) F(EIO, sticky)");
+    r.bound("shards", n_items);
+    r.note("not covered: the print!/println!/eprint! path (tiny-std/src/unix/print.rs) writes through a raw syscall; it needs the syscall seam (S2) and is left to that harness");
+    r.note("EINTR from a writer: write_all retries it (io.rs Write::write_all); the oracle accepts retry or returning EINTR, since the statement only promises retry for readers");
+    r.note("on an I/O error the statement fixes only the returned error; buffer contents after an error are not checked, except that a String must stay valid UTF-8 and is unchanged when the delivered bytes are not UTF-8");
+    r
+}
+
+// ---------------------------------------------------------------------------
+
+fn replay(v: &Value, r: &mut Report) {
+    let op = v["op"].as_str().unwrap_or("");
+    let payload = parse_shown(v["payload"].as_str().unwrap_or(""));
+    let script = parse_script(v["script"].as_str().unwrap_or(""));
+    let case = v.to_string();
+    println!("replaying {case}");
+    match op {
+        "read_to_end" => {
+            let len0 = v["len0"].as_u64().unwrap_or(0) as usize;
+            let cap0 = v["cap0"].as_u64().unwrap_or(0) as usize;
+            run_rte(r, &case, &payload, &script, len0, cap0, true);
+        }
+        "read_to_string" => {
+            let old = v["old"].as_str().unwrap_or("").to_string();
+            let spare = v["spare"].as_u64().unwrap_or(0) as usize;
+            run_rts(r, &case, &payload, &script, &RMENU, &old, spare, 0, true);
+        }
+        "read_exact" => {
+            let bufsize = v["bufsize"].as_u64().unwrap_or(0) as usize;
+            run_rex(r, &case, &payload, &script, bufsize, true);
+        }
+        "write_all" => {
+            let p = payload.clone();
+            run_write(r, "write_all", &case, &payload, &script, &move |w| w.write_all(&p), true);
+        }
+        "write_fmt" => {
+            let name = v["fmt"].as_str().unwrap_or("");
+            let cases = fmt_cases();
+            let f = cases.iter().find(|c| c.name == name).expect("unknown format case");
+            let run = f.run;
+            run_write(r, "write_fmt", &case, f.expect.as_bytes(), &script, &move |w| run(w), true);
+        }
+        _ => panic!("unknown op {op:?} in replay file"),
+    }
+    for v in r.violations.values() {
+        println!("VIOLATED {}: {}", v.key, v.desc);
+    }
+    if r.violations.is_empty() {
+        println!("no violation; outcomes {:?}", r.outcomes.keys().collect::<Vec<_>>());
+    }
+}
+
+fn main() {
+    let args = parse_args();
+    install_panic_hook();
+    if let Some(p) = &args.replay {
+        let v = read_replay(p);
+        let mut r = Report::new();
+        replay(&v, &mut r);
+        println!("{}", serde_json::to_string_pretty(&r.to_json()).unwrap());
+        std::process::exit(if r.violations.is_empty() { 0 } else { 1 });
+    }
+    let phase = args.phase.clone().unwrap_or_else(|| "c15".into());
+    let r = match phase.as_str() {
+        "c15" => c15(&args),
+        _ => panic!("unknown phase"),
+    };
+    r.write(&args.out);
+}
+
+#[cfg(test)]
+mod tests {
+    use super::*;
+    use std::collections::HashSet;
+
+    /// the by-construction rule for distinct cases selects exactly one script per response sequence
+    #[test]
+    fn canonical_scripts_are_one_per_response_trace() {
+        for plen in [0usize, 1, 2, 33, 65] {
+            let payload = mk_payload(plen);
+            for (len0, cap0) in [(0usize, 0usize), (0, plen), (5, 5), (5, 100)] {
+                let mut traces = HashSet::new();
+                let mut canon_traces = HashSet::new();
+                let mut canon = 0u64;
+                for_each_seq(N_RSYM, 4, |idx| {
+                    let steps: Vec<Step> = idx.iter().map(|&i| rsym(i)).collect();
+                    let mut v: Vec<u8> = Vec::with_capacity(cap0);
+                    v.extend_from_slice(&OLD[..len0]);
+                    let mut rd = SReader::new(&payload, &steps, &RMENU, false);
+                    let _ = rd.read_to_end(&mut v);
+                    traces.insert((rd.thash, rd.calls));
+                    if rd.counts_as_distinct() {
+                        canon += 1;
+                        assert!(canon_traces.insert((rd.thash, rd.calls)), "two canonical scripts with one trace: {steps:?}");
+                    }
+                });
+                // traces needing more than 4 scripted answers are outside the bound: every canonical one is a trace
+                assert!(canon_traces.is_subset(&traces));
+                // and every trace reachable with <= 4 scripted answers has its canonical script
+                assert_eq!(canon as usize, traces.len(), "plen {plen} len0 {len0} cap0 {cap0}");
+            }
+        }
+        for plen in [0usize, 1, 5] {
+            let payload = mk_payload(plen);
+            let mut traces = HashSet::new();
+            let mut canon = 0u64;
+            for_each_seq(N_WSYM, 5, |idx| {
+                let steps: Vec<Step> = idx.iter().map(|&i| wsym(i)).collect();
+                if steps[..steps.len().saturating_sub(1)].iter().any(|s| matches!(s, Step::Zero | Step::Fail)) {
+                    return;
+                }
+                let mut w = SWriter::new(&steps, &WMENU, plen, true);
+                let _ = w.write_all(&payload);
+                traces.insert(w.trace.clone().unwrap().iter().map(|l| l.replace(" [sticky / after script]", "")).collect::<Vec<_>>());
+                if w.counts_as_distinct() {
+                    canon += 1;
+                }
+            });
+            assert_eq!(canon as usize, traces.len(), "writer plen {plen}");
+        }
+    }
+}
